@@ -2,7 +2,7 @@
 # usage: all_seeds.sh [dir-with-seeds ...]  -- every kept seed (and extra dirs <name>-out with patch.diff) against its property's check
 # prints one line per seed: <seed> <PID> exit=<code> [first reported obligation]
 mkdir -p /tmp/vs
-for d in /verif/seeded/*/ "$@"; do
+for d in /verif/seeded/C*/ "$@"; do
   d=${d%/}; name=$(basename $d); name=${name%-out}; pid=${name%%-*}
   [ -f $d/patch.diff ] || continue
   wt=/tmp/vs/all-$$-$name
